@@ -53,7 +53,7 @@ Inductive case :=
 | CDrain (unit : N) (segs : list nat) (fin : final) (sizes : list nat)
          (log : list (N * nat)) (closes : nat) (unread : N) (ended : bool)
 (* CCall: files = per upload source what each of its Reads reports (nil / io.EOF / io.ErrUnexpectedEOF / any other error
-   value; sticky), compiled into the goroutine's program by Lifecycle.lower *)
+   value; sticky), compiled into the goroutine's program by Lifecycle.lower_fx all_fixed *)
 | CCall (nvalues : nat) (files : list srcfile) (sc : scenario) (keepalive : bool) (o : callobs) (t : timing)
 (* CReuse: sequential calls on ONE Runtime against a real loopback server through a real http.Transport; conns =
    the connections the server saw *)
@@ -87,7 +87,7 @@ Definition check_case (c : case) : N :=
        was still unread when Close was called *)
     verdict corr (Nat.eqb closes 1 && ended && N.eqb unread 0)
   | CCall nvalues files sc keepalive o t =>
-    let m := call all_fixed (compile all_fixed nvalues (map lower files)) sc in
+    let m := call all_fixed (compile all_fixed nvalues (map (lower_fx all_fixed) files)) sc in
     let nfiles := length files in
     let expect_closes := if c_started m then w_file_closes (c_w m) + c_builder_closes m else c_builder_closes m in
     let corr :=
